@@ -85,10 +85,20 @@ void Ctx::c09() {
 // ------------------------------------------------------------------ C15
 void Ctx::c15() {
     auto& B = s.broker;
+    // The CONNACK the client holds at the initiation of a request: the properties of the last CONNACK it logged
+    // (tied to what the broker encoded by C18), not what connack_properties() returns - a client that forgets the
+    // announced limits must not blind this oracle. Where the log cannot be attributed (two service generations,
+    // cancel/disconnect/re-run in between) the client's own snapshot is used.
+    auto held = [&](const OpRec& o) -> const Props& {
+        const LogRec* last = nullptr;
+        for (auto& l : s.logs) if (l.k == LogRec::connack && l.seq < o.init_seq) last = &l;
+        if (!last || multi_gen_active(last->seq, o.init_seq) || boundary_between(last->seq, o.init_seq)) return o.connack_snapshot;
+        return last->props;
+    };
     for (auto& o : s.ops) {
         if (o.kind != OpKind::publish && o.kind != OpKind::subscribe && o.kind != OpKind::unsubscribe) continue;
         if (!o.has_connack) continue;        // the statement covers requests initiated while the client holds a CONNACK
-        const Props& cp = o.connack_snapshot;
+        const Props& cp = held(o);
         std::set<int> F;                     // applicable documented errors
         uint32_t maxp = prop_num(cp, P_MAX_PACKET, 268435460u);
         Packet pk;
@@ -154,7 +164,7 @@ void Ctx::c15() {
         if (r.pkt.type == PUBLISH) op = op_of_topic(r.pkt.topic);
         else if (r.pkt.type == SUBSCRIBE && !r.pkt.subs.empty()) op = op_of_filter(r.pkt.subs[0].filter, sub_op_by_step);
         else continue;
-        if (op < 0 || !s.ops[op].has_connack || !(caps_of(s.ops[op].connack_snapshot) == cc)) continue;
+        if (op < 0 || !s.ops[op].has_connack || !(caps_of(held(s.ops[op])) == cc)) continue;
         uint32_t maxp = prop_num(cc, P_MAX_PACKET, 268435460u);
         if (r.pkt.raw.size() > maxp)
             fail("C15", "packet_exceeds_maximum_packet_size", "conn " + std::to_string(r.conn) + ": " + ptype_name(r.pkt.type) + " of " + std::to_string(r.pkt.raw.size()) + " bytes exceeds the announced Maximum Packet Size " + std::to_string(maxp));
@@ -244,8 +254,8 @@ void Ctx::c19() {
     auto& B = s.broker;
     // What a correct client can recognise on each connection: frame the emitted byte stream with the reference framer
     // and decode each frame strictly. Only those packets can be witnesses of a successful completion.
-    struct WF { int conn; Packet p; size_t off_end; uint64_t delivered_seq; };
-    std::vector<WF> wf, trailing;
+    struct WF { int conn; Packet p; size_t off_end; uint64_t delivered_seq; bool lenient = false; };
+    std::vector<WF> wf, trailing, badutf8, noprops;
     for (auto& bcp : B.conns) {
         if (!bcp) continue;
         Framer fr; size_t pos = 0;
@@ -262,6 +272,14 @@ void Ctx::c19() {
                 Packet p;
                 std::string e = decode_strict(f, p, true);
                 if (e.empty()) wf.push_back({bcp->conn, p, pos, sp.delivered_seq});
+                else if (Packet q; decode_lenient(f, q, true).empty()) wf.push_back({bcp->conn, q, pos, sp.delivered_seq, true});   // Protocol Error, not a Malformed Packet: accepting it is outside the statement
+                else if (Packet q2; decode_lenient(f, q2, true, true).empty()) badutf8.push_back({bcp->conn, q2, pos, sp.delivered_seq, true});   // parses apart from ill-formed UTF-8
+                else if (f.size() >= 4 && ((uint8_t)f[0] >> 4) == PUBLISH && !((uint8_t)f[1] & 0x80)) {
+                    // a PUBLISH whose body ends right after the topic name (and packet identifier): no Property Length at all
+                    size_t tl = ((uint8_t)f[2] << 8) | (uint8_t)f[3];
+                    int q = ((uint8_t)f[0] >> 1) & 3;
+                    if (q != 3 && f.size() == 2 + 2 + tl + (q ? 2 : 0)) { Packet q3; q3.type = PUBLISH; q3.topic = f.substr(4, tl); noprops.push_back({bcp->conn, q3, pos, sp.delivered_seq, true}); }
+                }
                 else if (e.find("trailing bytes") != std::string::npos) trailing.push_back({bcp->conn, p, pos, sp.delivered_seq});   // fields parsed, garbage after them
             }
             if (!fr.error.empty()) break;
@@ -292,6 +310,21 @@ void Ctx::c19() {
         if (!ok)
             fail("C19", only_trailing ? "ack_with_trailing_bytes_accepted" : "success_without_wellformed_ack", opstr(o) + " completed successfully during a hostile window, but no well-formed " + ptype_name(want) +
                  " for its packet identifier is contained in what the broker sent");
+    }
+    // a message handed to the application is one of the well-formed PUBLISH packets in the broker's byte stream
+    for (auto& o : s.ops) {
+        if (o.kind != OpKind::receive) continue;
+        const Done* d = done(o);
+        if (!d || d->c.ec) continue;
+        bool ok = false;
+        for (auto& w : wf) if (w.p.type == PUBLISH && w.p.topic == d->c.topic && w.p.payload == d->c.payload && (w.lenient || props_equal(w.p.props, d->c.props))) { ok = true; break; }
+        bool utf8 = false;
+        if (!ok) for (auto& w : badutf8) if (w.p.type == PUBLISH && w.p.topic == d->c.topic && w.p.payload == d->c.payload) utf8 = true;
+        bool nop = false;
+        if (!ok && !utf8 && d->c.payload.empty() && d->c.props.empty()) for (auto& w : noprops) if (w.p.topic == d->c.topic) nop = true;
+        if (!ok)
+            fail("C19", utf8 ? "publish_with_illformed_utf8_delivered" : nop ? "publish_without_property_length_delivered" : "received_message_not_in_wellformed_stream", opstr(o) + " delivered topic '" + d->c.topic + "' payload " + hex(d->c.payload, 24) + " " + props_str(d->c.props) +
+                 " which is not a well-formed PUBLISH of the broker's byte stream");
     }
 }
 
